@@ -156,6 +156,15 @@ def run(ctx, model_ok):
     bases += [("progs-small", s) for s in progs.generate(rng, n_prog, max_depth=2)]
     bases += [("suite", t["src"]) for t in suite.suite_tests()]
     bases += [("docs", s) for s in suite.doc_examples()]
+    # interpolated literals (their slots are lexed on their own when evaluated): nested literals at equal offsets in different
+    # slots and different outer literals, escapes before slots, slots evaluated repeatedly — under every layout of the rest
+    bases += [("interp", s) for s in (
+        'g := "héllo"\nn := "wörld"\nprint($"${ $"${g}" }, ${ $"${n}" }!")\n',
+        'fn tag(t) {\n    return "<" + t + ">"\n}\nx := "x"\ny := "y"\nprint($"1: ${ tag($"${x}") }")\nprint($"2: ${ tag($"${y}") }")\nprint($"3: ${ tag($"${x}") } ${ tag($"${y}") }")\n',
+        'name := "world"\nprint($"A: hello ${name}")\nprint($"\\x41: hello ${name}")\nprint($"\\x41\\x42 ${name} \\x43 ${name}")\n',
+        'xs := ["a", "b"]\nfor [i, v] in xs {\n    print($"${v}${ $"${v}" }")\n}\n',
+        'a := "1"\nb := "2"\nfn f(p) {\n    return $"[${p}]"\n}\nprint(f(a) + f(b) + $"${f($"${a}")}${f($"${b}")}")\n',
+    )]
     seen = set()
     bases = [(l, s) for l, s in bases if not (s in seen or seen.add(s))]
     state = {"reported": {}, "samples": set(), "tie_budget": 6000 if thorough else 1500}
